@@ -98,6 +98,12 @@ func UV(v any) int {
 // X logs the evaluation of a range expression.
 func (r *Rec) X(id int) { r.log("x", id, 0) }
 
+// W is a ONE-argument effectful call: logs and returns x.
+func (r *Rec) W(x int) int { r.log("w", x); return x }
+
+// NilOf is the operand of `return <expr>` in a generator: evaluated, logged, discarded.
+func NilOf[T any](r *Rec, id int) (z T) { r.log("v", id, 0); return }
+
 // N logs the construction of a generator instance (arguments).
 func (r *Rec) N(id int, vals ...int) { r.log("n", id, vals...) }
 
